@@ -8,6 +8,7 @@ func verif_go(name string, f func())          { panic("intrinsic") }
 func verif_runThreads()                        { panic("intrinsic") }
 func verif_sharedCtx() context.Context         { panic("intrinsic") }
 func verif_cancel(ctx context.Context)         { panic("intrinsic") }
+func verif_freeze(p any)                       { panic("intrinsic") }
 
 // VerifC15Concurrent: `producers` goroutines each add `per` items, one consumer waits for all of them, optionally a
 // canceller cancels the consumer's context. The goroutine bodies are the real Add / WaitForItem; the schedule is a solver
@@ -22,8 +23,15 @@ func VerifC15Concurrent(producers, per, withCancel int) {
 		ctx = verif_ctx(false)
 	}
 	total := producers * per
+	// harness parameters captured by the goroutine closures are immutable while they run (a write is reported)
+	verif_freeze(&per)
+	verif_freeze(&total)
+	verif_freeze(&withCancel)
+	verif_freeze(&ctx)
+	verif_freeze(&q)
 	for p := 0; p < producers; p++ {
 		base := p * 100
+		verif_freeze(&base)
 		verif_go("producer", func() {
 			for i := 1; i <= per; i++ {
 				q.Add(base + i)
